@@ -529,6 +529,9 @@ def c17(ctx):
     ps = L.run_shards(binp, "adversary", out, 8, {"VF_NSHARDS": 8, "VF_ONLY": "wrong"})
     crash_as_violation(ctx, ps, out, "adversary", "C17_Panic")
     files += sorted(glob.glob(os.path.join(out, "adversary-*.ndjson")))
+    # "interleaved framing exactly when both enabled it" also for associations started from exchanged tokens, with
+    # and without association options that contradict the token (hs-tokens-*, hs-tokens-mis-*)
+    files += directed_traces(ctx, "hs-special", 1)
     ctx.validate(files)
 
 
@@ -811,6 +814,7 @@ EXTRA["C06"] = ["C01_SkippedReliable", "C02_Delivered", "C01_ReadNext"]   # full
 EXTRA["C07"] = ["C01_SkippedReliable", "C02_Delivered", "C01_ReadNext", "C06_Genuine"]   # "never block or destroy anything else": the reliable traffic next to it
 EXTRA["C08"] = ["C09_NoLeak"]   # a shutdown that leaves goroutines blocked for good
 EXTRA["C14"] = ["C02_Delivered", "C01_ReadNext", "C06_Genuine", "C06_AtMostOnce", "C06_OrderedSubseq"]   # "normal delivery" of a re-opened identifier
+EXTRA["C17"] = ["C04_Agreement"]   # "both endpoints use interleaved framing exactly when both enabled it"
 EXTRA["C03"] = ["C01_", "C02_Delivered", "C06_Genuine", "C06_AtMostOnce", "C17_WrongKindAbort"]
 
 
